@@ -862,6 +862,17 @@ func (gen *c12Gen) genKustomization(g *Rng, dir string, resources []string, objs
 		}
 		mapSet(k, "configurations", ystrs(addFile(fmt.Sprintf("kconfig%d.yaml", layer), "config", []*yaml.Node{cfg}, nil)))
 	}
+	if p(8) {
+		// crds: OpenAPI definitions (JSON or YAML) from which name-reference / label field specs are derived
+		def := ym("com.example.v1.MyKind", ym("Schema", ym("type", ys("object"), "properties", ym(
+			"apiVersion", ym("type", ys("string")), "kind", ym("type", ys("string")),
+			"metadata", ym("$ref", ys("k8s.io/apimachinery/pkg/apis/meta/v1.ObjectMeta")),
+			"spec", ym("$ref", ys("com.example.v1.MyKindSpec")))), "Dependencies", ystrs("com.example.v1.MyKindSpec")),
+			"com.example.v1.MyKindSpec", ym("Schema", ym("type", ys("object"), "properties", ym(
+				"ref", ym("x-kubernetes-object-ref-api-version", ys("v1"), "x-kubernetes-object-ref-kind", ys("ConfigMap"), "type", ys("object")),
+				"image", ym("type", ys("string")))), "Dependencies", ystrs()))
+		mapSet(k, "crds", ystrs(addFile(fmt.Sprintf("crd%d.yaml", layer), "config", []*yaml.Node{def}, nil)))
+	}
 	if p(12) {
 		var t *yaml.Node
 		switch g.Intn(5) {
@@ -1214,6 +1225,45 @@ func (gen *c12Gen) mutateOnce(g *Rng, t *c12Tree) string {
 			replaceRef(ref, junkNode(g, 2))
 			return "junk:replace " + where
 		}
+	case op < 71: // anchors and aliases: a reused node, a merge key, or a node that contains itself
+		tgt := n
+		if tgt.Kind == yaml.ScalarNode && ref.parent != nil {
+			tgt = ref.parent
+		}
+		if tgt.Kind != yaml.MappingNode && tgt.Kind != yaml.SequenceNode {
+			return ""
+		}
+		name := g.Pick([]string{"x", "a", "anchor1"})
+		tgt.Anchor = name
+		alias := &yaml.Node{Kind: yaml.AliasNode, Value: name, Alias: tgt}
+		what := ""
+		switch g.Intn(4) {
+		case 0, 1: // the node refers to itself
+			if tgt.Kind == yaml.MappingNode {
+				tgt.Content = append(tgt.Content, ys(g.Pick([]string{"b", "self", "name"})), alias)
+			} else {
+				tgt.Content = append(tgt.Content, alias)
+			}
+			what = "self"
+		case 2: // merge key pointing at the enclosing mapping
+			if tgt.Kind == yaml.MappingNode {
+				tgt.Content = append(tgt.Content, &yaml.Node{Kind: yaml.ScalarNode, Tag: "!!merge", Value: "<<"}, alias)
+				what = "selfmerge"
+			} else {
+				tgt.Content = append(tgt.Content, alias)
+				what = "self"
+			}
+		default: // an ordinary alias elsewhere in the same document (valid YAML)
+			root := f.docs[ref.doc]
+			if root.Kind == yaml.MappingNode && root != tgt {
+				root.Content = append(root.Content, ys("aliased"), alias)
+				what = "reuse"
+			} else {
+				tgt.Anchor = ""
+				return ""
+			}
+		}
+		return "anchor:" + what + " " + where
 	case op < 92: // extend a string with meta-characters
 		// find a scalar at or below the node
 		sc := n
